@@ -473,8 +473,8 @@ def obligations(tier, seed):
                 cfg = dict(meta=meta, with_threshold=wt, request_all=ra)
                 specs.append(spec(MOD, 'Refresh', 'refresh/%s/%s/%s' % ('meta2x2' if meta else 'single', 'threshold' if wt else 'no-threshold',
                                                                        'all4' if ra else 'one'), cfg=cfg, cost=20 if meta else 3))
-    deltas = [{'hours': 4}, {'days': 1, 'minutes': 2}, {'weeks': 2}, {'seconds': 30}]
-    for d in (deltas if tier == 'thorough' else deltas[:2]):
+    deltas = [{'hours': 4}, {'days': 1, 'minutes': 2}, {'hours': 1.5}, {'minutes': 0.5, 'seconds': 2}, {'weeks': 2}, {'seconds': 30}]
+    for d in (deltas if tier == 'thorough' else deltas[:4]):
         specs.append(spec(MOD, 'RelativeThreshold', 'relative-threshold/%s' % '-'.join('%s%s' % kv for kv in d.items()), cfg=dict(delta=d)))
     specs.append(spec(MOD, 'AbsoluteThreshold', 'mtime-threshold-follows-file', cfg={}))
     specs.append(spec(MOD, 'Recheck', 'recheck-uses-the-current-timestamp', cfg={}))
